@@ -206,6 +206,11 @@ register('C16', 'proof',
          'proved object invariants. XML-RPC methods may only let RPCError escape. The handler-reachable call graph, the '
          'functions under contract and the unverified remainder (by name) are listed in coverage.handler_reachability.',
          not_decided=['exception-freedom of the unverified remainder of the handler-reachable call graph (listed by name)',
+                      'last-resort guards (contracts/c16_listener.py): SupervisorListener.on_tick / on_remote_event are PROVED '
+                      'to let nothing escape whatever their callees raise (callees ASSUMED with raises = Exception); the '
+                      'other handlers (on_running, on_stopping, on_process_state, on_process_added/removed/disability, '
+                      'on_group_added/removed) need Supervisor event / process classes in contracts/shapes.py and are not '
+                      'under contract',
                       'web UI, statistics collector process, Supervisor patches, transport threads'],
          assumptions=['payload record shapes (contracts/shapes.py)', 'single-threaded atomic handlers'])
 register('C15', 'proof',
@@ -527,12 +532,16 @@ register('C14', 'proof',
                       '"loads include starts already requested": the request map itself (ApplicationStartJobs.'
                       'get_load_requests) is proved for its domain and for the lower bound "at least each pending command" '
                       '(contracts/c04_loadreq.py), not for the exact sum; Starter.get_load_requests is not under contract',
-                      'distribute_to_single_instance / distribute_to_single_node / before / on_command_added (DESIGN C14.4): '
-                      'only their call sites of update_identifier are decided, structurally (pyvc/structural_c14.py) on top '
-                      'of the PROVED contract of ProcessStartCommand.update_identifier (KeyError iff unknown / None target, '
-                      'TypeError iff the target does not know the program) - three findings C14-single-node-*; the '
-                      'deductive contracts (one instance / one node for the whole plan) are drafted but their loop '
-                      'preservation is not decided within the budget (docs/wip_c14_distribution.py, not loaded)',
+                      'distribute_to_single_instance / distribute_to_single_node (contracts/c14_single.py, '
+                      'c14_single_calls.py): PROVED per iteration (the command of any iteration gets the instance '
+                      'get_supvisors_instance returned = the selection / an element of the selection seen RUNNING; None -> '
+                      'nothing assigned; selection RUNNING, permitted by the application rule, knows every program; no '
+                      'KeyError, TypeError only as in finding C14-single-node-unknown-program) on top of ASSUMED candidate '
+                      'lists of ApplicationStatus and an ASSUMED dispatch of update_identifier; NOT decided: the quantified '
+                      'form over the whole plan, "instances of one single node" for the selection, and - decisive - the '
+                      'counter-model search does not conclude for the breaking edits tried (> 120 s, undecided: '
+                      'contracts/wip_c14_single.txt), so these edits are still only caught by the structural obligations '
+                      'of pyvc/structural_c14.py; before / on_command_added are not under contract',
                       'ApplicationStatus.possible_identifiers / possible_node_identifiers / get_start_sequence_expected_load '
                       '(set.intersection(*sets), for/else over sets, sum()) are not under contract',
                       'ties beyond the documented keys (the statement leaves them open)'],
